@@ -232,6 +232,16 @@ def make_special(name):
             PatchwiseTransform(2, KDRandomHorizontalFlip()),
             KDRandomApply(KDColorJitter(saturation=0.5), p=0.5), KDSemsegRandomHorizontalFlip()], seed=seed_value()), "x semseg",
             return_ctx=True), list(range(N))
+    if name in ("transform_reassigned", "transform_reassigned_after_use"):
+        # the wrapper is built with a plain callable (test-time pipeline) and gets a stochastic transform assigned later
+        # (`dataset.transform = train_transform`), possibly after it already served a sample
+        from kappadata.wrappers.sample_wrappers.x_transform_wrapper import XTransformWrapper
+        P = probe_cls()
+        w = XTransformWrapper(Root("T3"), cat.Plain(), seed=seed_value())
+        if name.endswith("after_use"):
+            w.getitem_x(0)
+        w.transform = P()
+        return ModeWrapper(w, "x class", return_ctx=True), list(range(N))
     if name in ("multiview_plain_first", "multiview_plain_middle"):
         # plain callables (torchvision transforms, lambdas) among the view configs
         from kappadata.wrappers.sample_wrappers.kd_multi_view_wrapper import KDMultiViewWrapper
@@ -288,7 +298,7 @@ def probe_like_color():
     return KDRandomColorJitter(p=0.8, brightness=0.4, contrast=0.4)
 
 
-SPECIALS = ("mix_soft", "multiview_plain_first", "multiview_plain_middle", "shared_transform_pair", "shared_transform_pair_nested", "shared_transform_pair_multiview", "shared_transform_stacked",
+SPECIALS = ("transform_reassigned", "transform_reassigned_after_use", "mix_soft", "multiview_plain_first", "multiview_plain_middle", "shared_transform_pair", "shared_transform_pair_nested", "shared_transform_pair_multiview", "shared_transform_stacked",
             "shared_transform_stacked_nested", "mix", "mix_p05", "other_items", "semseg", "semseg_nested", "semseg_scheduled", "byol_multiview", "mugs_multiview", "imagenet_minaug_multiview", "imagenet_minaug_xtransform")
 
 
@@ -423,7 +433,7 @@ def task(items):
                           maxlen=3 if _tensor_out(tspec) else 2, workers=not sched)
         else:
             explore_stack(lambda: make_special(it[1]), it[1] + sfx, dict(special=it[1], seed0=sfx == "|seed0", npseed=_SEED_NUMPY[0], stored=_STORED[0]), p,
-                          expect_distinct=it[1] in ("byol_multiview", "other_items") or it[1].startswith(("shared_transform", "multiview_plain")),
+                          expect_distinct=it[1] in ("byol_multiview", "other_items") or it[1].startswith(("shared_transform", "multiview_plain", "transform_reassigned")),
                           workers=it[1] != "semseg_scheduled", maxlen=3)
     p.sample(dict(item=[str(x) for x in items[0]], histories="all access sequences of length<=3 x perturbation; workers 1..3"))
     return p
